@@ -18,8 +18,9 @@ What is kept exactly as in the code:
   * the proposal hash is the only identity `BeginBlock` looks at (`resetProposalIfChanged`);
     the empty hash (`[]byte{}` in PrepareProposal, modelled as `0`) means "still proposing":
     system transactions panic, metadata validation is skipped;
-  * `isEqual` compares the recorded header, transaction list and misbehaviour list — and
-    nothing else (in particular **not** the last-commit info);
+  * `isEqual` compares the recorded header, transaction list, last-commit info and misbehaviour
+    list (since /repo 47a524f; before that fix the last-commit info was not compared, see
+    `OasisProofs.C01.prefix_rule_commit_info_gap`);
   * cached DeliverTx results are a queue popped by each DeliverTx; EndBlock panics when the queue
     is not empty, DeliverTx panics when it is empty;
   * a panic while executing a proposal resets the proposal and yields an empty proposal /
@@ -85,20 +86,21 @@ structure Work (W Root : Type) where
   /-- `BlockContext.ProposerAddress`. -/
   proposer : Nat
 
-/-- `proposalState`. `recd` = (header, txs, misbehavior), set only by PrepareProposal.
+/-- `proposalState`. `recd` = (header, txs, lastCommit, misbehavior), set only by PrepareProposal
+(`header` and `lastCommit` are set and reset together; `isEqual` is false when either is nil).
 `results = none` ⇔ `needsExecution()`. `work = none` is the untouched overlay of `resetProposal`. -/
-structure Proposal (W Tx R Root Hdr Ev : Type) where
-  recd : Option (Hdr × List (RawTx Tx Root) × Ev)
+structure Proposal (W Tx R Root Hdr LC Ev : Type) where
+  recd : Option (Hdr × List (RawTx Tx Root) × LC × Ev)
   hash : Hash
   work : Option (Work W Root)
   results : Option (R × List R × R)
 
 /-- `applicationState` as far as block processing is concerned. `canon` is the last committed
 state (what is on disk), `check` the CheckTx tree, `self` the node's own consensus address. -/
-structure Mux (St W Tx R Root Hdr Ev : Type) where
+structure Mux (St W Tx R Root Hdr LC Ev : Type) where
   self : Nat
   canon : St
-  prop : Option (Proposal W Tx R Root Hdr Ev)
+  prop : Option (Proposal W Tx R Root Hdr LC Ev)
   check : St
 
 inductive Call (Tx Root Hdr LC Ev : Type) where
@@ -124,7 +126,7 @@ inductive Resp (Tx R Root : Type) where
 
 section
 variable {St W Tx R Root Hdr LC Ev : Type}
-variable [DecidableEq Tx] [DecidableEq Root] [DecidableEq Hdr] [DecidableEq Ev]
+variable [DecidableEq Tx] [DecidableEq Root] [DecidableEq Hdr] [DecidableEq LC] [DecidableEq Ev]
 
 /-! ### Executing a block (`executeProposal`, and the same calls issued one by one) -/
 
@@ -192,37 +194,38 @@ def exec (A : Apps St W Tx R Root Hdr LC Ev) (s : St) (b : Blk Tx Root Hdr LC Ev
 /-! ### The multiplexer -/
 
 /-- `resetProposal`: fresh overlay over canonical state, nothing recorded. -/
-def freshProposal (h : Hash) : Proposal W Tx R Root Hdr Ev :=
+def freshProposal (h : Hash) : Proposal W Tx R Root Hdr LC Ev :=
   { recd := none, hash := h, work := none, results := none }
 
-/-- `isEqual` (state.go:65-96): header, transactions, misbehaviour — nothing else. -/
-def isEqual (p : Proposal W Tx R Root Hdr Ev) (hdr : Hdr) (txs : List (RawTx Tx Root)) (ev : Ev) : Bool :=
+/-- `isEqual` (state.go): header, transactions, last-commit info, misbehaviour. -/
+def isEqual (p : Proposal W Tx R Root Hdr LC Ev) (hdr : Hdr) (txs : List (RawTx Tx Root)) (lc : LC) (ev : Ev) :
+    Bool :=
   match p.recd with
   | none => false
-  | some (h, t, e) => h == hdr && t == txs && e == ev
+  | some (h, t, l, e) => h == hdr && t == txs && l == lc && e == ev
 
 /-- The block metadata transaction `prepareSystemTxs` builds and signs with the node's own key. -/
 def metaTx (A : Apps St W Tx R Root Hdr LC Ev) (self : Nat) (wk : Work W Root) : RawTx Tx Root :=
   .sysMeta self true (some (A.root (A.tree wk.w), A.evroot wk.w))
 
-def prepare (A : Apps St W Tx R Root Hdr LC Ev) (m : Mux St W Tx R Root Hdr Ev)
-    (b : Blk Tx Root Hdr LC Ev) : Mux St W Tx R Root Hdr Ev × Resp Tx R Root :=
+def prepare (A : Apps St W Tx R Root Hdr LC Ev) (m : Mux St W Tx R Root Hdr LC Ev)
+    (b : Blk Tx Root Hdr LC Ev) : Mux St W Tx R Root Hdr LC Ev × Resp Tx R Root :=
   match execBlock A m.canon true b.hdr b.lc b.ev b.txs with
   | none => ({ m with prop := some (freshProposal 0) }, .prepared [])
   | some (wk, rb, rds, re) =>
     let txs := b.txs ++ [metaTx A m.self wk]
-    ({ m with prop := some { recd := some (b.hdr, txs, b.ev), hash := 0, work := some wk,
+    ({ m with prop := some { recd := some (b.hdr, txs, b.lc, b.ev), hash := 0, work := some wk,
                              results := some (rb, rds ++ [A.okR], re) } },
      .prepared txs)
 
 /-- `mux.state.proposal != nil && !needsExecution() && isEqual(...)` (mux.go:473). -/
-def reusable (m : Mux St W Tx R Root Hdr Ev) (b : Blk Tx Root Hdr LC Ev) : Bool :=
+def reusable (m : Mux St W Tx R Root Hdr LC Ev) (b : Blk Tx Root Hdr LC Ev) : Bool :=
   match m.prop with
   | none => false
-  | some p => p.results.isSome && isEqual p b.hdr b.txs b.ev
+  | some p => p.results.isSome && isEqual p b.hdr b.txs b.lc b.ev
 
-def process (A : Apps St W Tx R Root Hdr LC Ev) (m : Mux St W Tx R Root Hdr Ev) (h : Hash)
-    (b : Blk Tx Root Hdr LC Ev) : Mux St W Tx R Root Hdr Ev × Resp Tx R Root :=
+def process (A : Apps St W Tx R Root Hdr LC Ev) (m : Mux St W Tx R Root Hdr LC Ev) (h : Hash)
+    (b : Blk Tx Root Hdr LC Ev) : Mux St W Tx R Root Hdr LC Ev × Resp Tx R Root :=
   if reusable m b then
     ({ m with prop := m.prop.map fun p => { p with hash := h } }, .accept)
   else
@@ -234,9 +237,9 @@ def process (A : Apps St W Tx R Root Hdr LC Ev) (m : Mux St W Tx R Root Hdr Ev) 
 
 /-- `BeginBlock` as an ABCI call (mux.go:567-654). `none`: panic, or a call CometBFT never makes
 (BeginBlock for the hash of a block that is already half executed). -/
-def beginBlock (A : Apps St W Tx R Root Hdr LC Ev) (m : Mux St W Tx R Root Hdr Ev) (h : Hash)
-    (b : Blk Tx Root Hdr LC Ev) : Option (Mux St W Tx R Root Hdr Ev × Resp Tx R Root) :=
-  let fresh : Option (Mux St W Tx R Root Hdr Ev × Resp Tx R Root) :=
+def beginBlock (A : Apps St W Tx R Root Hdr LC Ev) (m : Mux St W Tx R Root Hdr LC Ev) (h : Hash)
+    (b : Blk Tx Root Hdr LC Ev) : Option (Mux St W Tx R Root Hdr LC Ev × Resp Tx R Root) :=
+  let fresh : Option (Mux St W Tx R Root Hdr LC Ev × Resp Tx R Root) :=
     match beginOne A m.canon b.hdr b.lc b.ev with
     | none => none
     | some (wk, rb) =>
@@ -252,8 +255,8 @@ def beginBlock (A : Apps St W Tx R Root Hdr LC Ev) (m : Mux St W Tx R Root Hdr E
         | some _ => none
     else fresh
 
-def deliverTx (A : Apps St W Tx R Root Hdr LC Ev) (m : Mux St W Tx R Root Hdr Ev)
-    (t : RawTx Tx Root) : Option (Mux St W Tx R Root Hdr Ev × Resp Tx R Root) :=
+def deliverTx (A : Apps St W Tx R Root Hdr LC Ev) (m : Mux St W Tx R Root Hdr LC Ev)
+    (t : RawTx Tx Root) : Option (Mux St W Tx R Root Hdr LC Ev × Resp Tx R Root) :=
   match m.prop with
   | none => none
   | some p =>
@@ -268,8 +271,8 @@ def deliverTx (A : Apps St W Tx R Root Hdr LC Ev) (m : Mux St W Tx R Root Hdr Ev
         | none => none
         | some (wk', r) => some ({ m with prop := some { p with work := some wk' } }, .res r)
 
-def endBlock (A : Apps St W Tx R Root Hdr LC Ev) (m : Mux St W Tx R Root Hdr Ev) :
-    Option (Mux St W Tx R Root Hdr Ev × Resp Tx R Root) :=
+def endBlock (A : Apps St W Tx R Root Hdr LC Ev) (m : Mux St W Tx R Root Hdr LC Ev) :
+    Option (Mux St W Tx R Root Hdr LC Ev × Resp Tx R Root) :=
   match m.prop with
   | none => none
   | some p =>
@@ -285,8 +288,8 @@ def endBlock (A : Apps St W Tx R Root Hdr LC Ev) (m : Mux St W Tx R Root Hdr Ev)
         | some (wk', re) => some ({ m with prop := some { p with work := some wk' } }, .res re)
 
 /-- `Commit` / `doCommit`: the proposal tree becomes canonical, the check tree is reopened. -/
-def commit (A : Apps St W Tx R Root Hdr LC Ev) (m : Mux St W Tx R Root Hdr Ev) :
-    Option (Mux St W Tx R Root Hdr Ev × Resp Tx R Root) :=
+def commit (A : Apps St W Tx R Root Hdr LC Ev) (m : Mux St W Tx R Root Hdr LC Ev) :
+    Option (Mux St W Tx R Root Hdr LC Ev × Resp Tx R Root) :=
   match m.prop with
   | none => none
   | some p =>
@@ -296,11 +299,11 @@ def commit (A : Apps St W Tx R Root Hdr LC Ev) (m : Mux St W Tx R Root Hdr Ev) :
     some ({ m with canon := s', prop := none, check := s' }, .appHash (A.root s'))
 
 /-- A new process over the same data directory: state as of the last `Commit`. -/
-def restart (m : Mux St W Tx R Root Hdr Ev) : Mux St W Tx R Root Hdr Ev :=
+def restart (m : Mux St W Tx R Root Hdr LC Ev) : Mux St W Tx R Root Hdr LC Ev :=
   { m with prop := none, check := m.canon }
 
-def step (A : Apps St W Tx R Root Hdr LC Ev) (m : Mux St W Tx R Root Hdr Ev) :
-    Call Tx Root Hdr LC Ev → Option (Mux St W Tx R Root Hdr Ev × Resp Tx R Root)
+def step (A : Apps St W Tx R Root Hdr LC Ev) (m : Mux St W Tx R Root Hdr LC Ev) :
+    Call Tx Root Hdr LC Ev → Option (Mux St W Tx R Root Hdr LC Ev × Resp Tx R Root)
   | .prepare b => some (prepare A m b)
   | .process h b => some (process A m h b)
   | .begin h b => beginBlock A m h b
@@ -313,8 +316,8 @@ def step (A : Apps St W Tx R Root Hdr LC Ev) (m : Mux St W Tx R Root Hdr Ev) :
   | .query => some (m, .unit)
 
 def run (A : Apps St W Tx R Root Hdr LC Ev) :
-    Mux St W Tx R Root Hdr Ev → List (Call Tx Root Hdr LC Ev) →
-    Option (Mux St W Tx R Root Hdr Ev × List (Resp Tx R Root))
+    Mux St W Tx R Root Hdr LC Ev → List (Call Tx Root Hdr LC Ev) →
+    Option (Mux St W Tx R Root Hdr LC Ev × List (Resp Tx R Root))
   | m, [] => some (m, [])
   | m, c :: cs =>
     match step A m c with
